@@ -57,6 +57,8 @@ impl BackendInternal {
             hdr.set_need_reply(true);
         }
         self.sock.send_message(&hdr, body, fds)?;
+        #[cfg(feature = "verif-hooks")]
+        super::verif::hold("be_req.after_send");
 
         self.wait_for_ack(&hdr)
     }
